@@ -177,6 +177,39 @@ class VEmployedBy(VAffiliatedWith):
     ...
 
 
+@dataclass
+class VRegion(Symbol):
+    """one transitive descriptor class attached to fields of TWO domain classes (VRegion.part_of, VCity.located_in)"""
+    name: str
+    within: List[VRegion] = field(default_factory=list)
+
+    def __hash__(self):
+        return hash(self.name)
+
+    def __repr__(self):
+        return self.name
+
+
+@dataclass
+class VCity(Symbol):
+    name: str
+    located_in: List[VRegion] = field(default_factory=list)
+
+    def __hash__(self):
+        return hash(self.name)
+
+    def __repr__(self):
+        return self.name
+
+
+@dataclass
+class VWithin(PropertyDescriptor, TransitiveProperty):
+    ...
+
+
+VRegion.within = VWithin(VRegion, "within")
+VCity.located_in = VWithin(VCity, "located_in")
+
 VWorker.employer = VEmployedBy(VWorker, "employer")
 VContractor.affiliations = VAffiliatedWith(VContractor, "affiliations")
 
@@ -203,6 +236,8 @@ FIELDS = {
     (VUnit, "part_of"): (VPartOf, False),
     (VUnit, "has_part"): (VHasPart, False),
     (VUnit, "directly_part_of"): (VDirectlyPartOf, False),
+    (VRegion, "within"): (VWithin, False),
+    (VCity, "located_in"): (VWithin, False),
 }
 ROLE_TAKER_FIELD = {VCEO: "person"}
 
